@@ -130,10 +130,13 @@ def determinism_selfcheck(prop, runfn, seed, n=8):
     env["PYTHONHASHSEED"] = "12345" if os.environ.get("PYTHONHASHSEED") != "12345" else "54321"
     env["TVSIM_NO_REEXEC"] = "1"
     env["VERIF_SEED"] = str(seed)
-    p = subprocess.run(
-        [os.path.join(core.VERIF_DIR, "check"), prop, "--digests", f"0-{n - 1}"],
-        env=env, capture_output=True, text=True, timeout=300,
-    )
+    try:
+        p = subprocess.run(
+            [os.path.join(core.VERIF_DIR, "check"), prop, "--digests", f"0-{n - 1}"],
+            env=env, capture_output=True, text=True, timeout=1500,
+        )
+    except subprocess.TimeoutExpired:
+        return {"ok": False, "why": "fresh interpreter did not finish within 1500 s (machine overloaded?)"}
     c = None
     try:
         c = {int(k): tuple(v) for k, v in json.loads(p.stdout.strip().splitlines()[-1]).items()}
@@ -152,6 +155,20 @@ def determinism_selfcheck(prop, runfn, seed, n=8):
 
 
 def main(argv=None):
+    """Exit 1 is reserved for a confirmed VIOLATION: any crash of the harness itself is exit 2."""
+    try:
+        return _main(argv)
+    except SystemExit:
+        raise
+    except BaseException as e:  # noqa
+        import traceback
+
+        traceback.print_exc()
+        print(f"HARNESS-ERROR {type(e).__name__}: {e}")
+        return 2
+
+
+def _main(argv=None):
     ap = argparse.ArgumentParser(prog="check")
     ap.add_argument("prop")
     ap.add_argument("--tier", default=os.environ.get("VERIF_TIER", "quick"))
